@@ -24,7 +24,7 @@ const TOKENS: &[&str] = &[
     "p", "div", ".a", "#i0", "*", ">", " ", "  ", "\n", ",", "{", "}", "(", ")", "[", "]", ";", ":", "::before", "::after", ":nth-child(", ":nth-child(2n+1)", ":hover", "color", "background",
     "background-color", "display", "none", "block", "white-space", "pre", "content", "height", "max-height", "overflow", "hidden", "0", "0px", "1e9", "99999999999999999999", "-2147483648", "2147483647n", "-n+3", "n-2147483647",
     "#", "#f00", "#ff0000", "#12", "#zz", "red", "rgb(", "rgb(1,2,3)", "rgb(300,1,1)", "url(", "url(x)", "\"", "'", "\"str\"", "'unterminated", "\\", "\\41 ", "\\d800 ", "\\dfff", "\\dc00x", "\\110000 ", "\\0 ", "\\ffffff", ".\\d800 x", "/*", "*/", "/* c */", "<!--", "-->", "@", "@media", "@import",
-    "@x", "!important", "!", "important", "%", "12%", "+", "-", "--x", ".", "..", "e", "é", "中", "\u{0}", "\u{feff}", "\t", "\r\n", "\x0c", "=", "~", "|", "^", "$", "&", "<", "a:not(.b)", "p+p", "1.5em", ".5", "5.", "+.5e-3",
+    "@x", "!important", "!", "important", "%", "12%", "+", "-", "--x", ".", "..", "e", "é", "中", "\u{0}", "\u{80}", "\u{81}", "\u{9f}", "\u{a0}", "\u{7f}", "\u{1f}", "\u{feff}", "\u{2028}", "\u{3000}", "\u{10ffff}", "\\00002da", "\\000031a", ".x\\00002da", "\t", "\r\n", "\x0c", "=", "~", "|", "^", "$", "&", "<", "a:not(.b)", "p+p", "1.5em", ".5", "5.", "+.5e-3",
 ];
 
 fn soup() -> BoxedStrategy<String> {
